@@ -85,7 +85,7 @@ SeqSum(s) == LET RECURSIVE Go(_)
 UpdateRewardPool(S, gas, grants, h) ==
   IF Len(gas) # 1 THEN Fail(S)
   ELSE LET remain1 == S.pool.remain + SeqSum(grants)
-           r == Min(BlockReward(h), remain1)
+           r == EmissionMove(BlockReward(h), remain1)
        IN [S EXCEPT !.pool = [goat |-> S.pool.goat + r, gas |-> S.pool.gas + (IF gas[1] > 0 THEN gas[1] ELSE 0), remain |-> remain1 - r]]
 
 (***************************************************************************)
@@ -278,7 +278,7 @@ Pow10Mod(k, P) == IF k = 0 THEN 1 % P ELSE (10 * Pow10Mod(k - 1, P)) % P
 Share(pool, p, P) ==
   LET x == pool * p
       frac == (p * Pow10Mod(18, P)) % P
-  IN IF x % P = 0 /\ frac # 0 /\ x > 0 THEN (x \div P) - 1 ELSE x \div P
+  IN IF x % P = 0 /\ frac # 0 /\ x > 0 THEN FloorShare(pool, p, P) - 1 ELSE FloorShare(pool, p, P)
 
 RECURSIVE DistWalk(_, _, _, _, _)
 DistWalk(S, votes, P, gas0, goat0) ==
